@@ -15,6 +15,10 @@
 (*  S4  union/merge: members of either operand are members of the union;   *)
 (*              v | v2 \in merge_overwrite(k, k2) for objects              *)
 (*  S5  subtype: is_superset(k, k2) => every member of k2 is a member of k *)
+(*  S6  subtype, other direction, where membership is known without a      *)
+(*      witness: k contains its own members, and the union contains the     *)
+(*      members of both operands (S4), so is_superset(k, k),                *)
+(*      is_superset(k \/ k2, k) and is_superset(k \/ k2, k2) must say yes   *)
 (***************************************************************************)
 EXTENDS Kinds, Json, IOUtils
 
@@ -41,6 +45,8 @@ Laws(r) ==
   \o (IF ~IsNone(r.v2) /\ InKind(r.v2, r.rt2) /\ ~InKind(r.v2, r.union) THEN << "S4-UnionContainsRight" >> ELSE <<>>)
   \o (IF ~IsNone(r.v2) /\ InKind(r.v2, r.rt2) /\ ~IsNone(r.vmerge) /\ ~InKind(r.vmerge, r.merge) THEN << "S4-MergeSound" >> ELSE <<>>)
   \o (IF r.sup /\ ~IsNone(r.v2) /\ InKind(r.v2, r.rt2) /\ ~InKind(r.v2, r.rt) THEN << "S5-SupersetAgreesWithMembership" >> ELSE <<>>)
+  \o (IF r.sup_refl THEN <<>> ELSE << "S6-SupersetReflexive" >>)
+  \o (IF r.sup_union_l /\ r.sup_union_r THEN <<>> ELSE << "S6-UnionIsSupersetOfOperands" >>)
 
 (* ---------- features of a case: name the circumstances a finding occurred in ---------- *)
 Holes(kn) == \E j \in 1..Len(kn) : \E i \in 0..(kn[j][1] - 1) : KnownIndex(kn, i) = None
@@ -74,7 +80,7 @@ Pads(v, p) == \E j \in 1..Len(p) :
 RhsOptional(k2) == HasObj(k2) /\ \E f \in DOMAIN k2.obj.kn : AdmitsUndefined(k2.obj.kn[f])
 
 Features(r, rule) ==
-  LET merge == rule \in {"S4-MergeSound", "S4-UnionContainsLeft", "S4-UnionContainsRight", "S5-SupersetAgreesWithMembership"}
+  LET merge == rule \in {"S4-MergeSound", "S4-UnionContainsLeft", "S4-UnionContainsRight", "S5-SupersetAgreesWithMembership", "S6-SupersetReflexive", "S6-UnionIsSupersetOfOperands"}
       fs == IF merge THEN (IF RhsOptional(r.rt2) THEN <<"rhs-optional-field">> ELSE <<>>)
             ELSE (IF HasNeg(r.p) THEN <<"negative-index">> ELSE <<>>)
                  \o (IF AnyOptIdx(r.rt) THEN <<"optional-or-sparse-known-index">> ELSE <<>>)
